@@ -10,6 +10,7 @@ import (
 	"os"
 	"runtime"
 	"strings"
+	"time"
 
 	apifu "github.com/ccbrown/api-fu"
 	"github.com/ccbrown/api-fu/graphql"
@@ -18,12 +19,14 @@ import (
 )
 
 const findingF15a = "F-15a-abandoned-go-task-blocks-forever"
+const findingF15c = "F-15c-batch-invocations-of-a-finished-subscription-event-flushed-in-the-next"
 const findingF15b = "F-15b-chain-goroutine-waits-for-unflushed-batch-promise"
 
 type worker struct {
 	model       *hx.Model
 	f02aPresent bool
 	ignore      map[string]bool // goroutine ids already reported as leaked
+	floor       int             // runtime.NumGoroutine() of the quiescent worker (plus goroutines already reported)
 	detail      bool
 }
 
@@ -96,7 +99,12 @@ func (wk *worker) runCase(c *Case) (res CaseResult) {
 	res.OK = true
 
 	// reference: every resolver synchronous
-	ref := serve(c, true)
+	doServe := serve
+	if c.WS {
+		doServe = serveWS
+		count("transport:graphql-ws")
+	}
+	ref := doServe(c, true)
 	if ref.deadlock || ref.panicked != "" {
 		return fail("crash", "", "the all-synchronous run failed: deadlock=%v panic=%s", ref.deadlock, ref.panicked)
 	}
@@ -104,12 +112,10 @@ func (wk *worker) runCase(c *Case) (res CaseResult) {
 		return fail("harness", "", "harness: the synchronous run used a helper")
 	}
 
-	baselineGs := len(wk.filterKnown(requestGoroutines()))
-	if baselineGs != 0 {
-		return fail("harness", "", "harness: %d request goroutines exist before the case starts", baselineGs)
+	if pre := wk.filterKnown(settle(wk.floor)); len(pre) != 0 {
+		return fail("harness", "", "harness: %d request goroutines exist before the case starts: %s", len(pre), firstFrames(pre[0], 3))
 	}
-	baseline := runtime.NumGoroutine()
-	run := serve(c, false)
+	run := doServe(c, false)
 	w := run.w
 	if run.deadlock {
 		res.Fatal = true
@@ -132,7 +138,7 @@ func (wk *worker) runCase(c *Case) (res CaseResult) {
 		res.Fatal = true
 		return fail("harness", "", "%v", relErr)
 	}
-	left := wk.filterKnown(settle(baseline))
+	left := wk.filterKnown(settle(wk.floor))
 
 	// distribution
 	nGo, nBatch, nChained, nGated := len(w.tasks), len(w.regs), 0, 0
@@ -240,6 +246,7 @@ func (wk *worker) runCase(c *Case) (res CaseResult) {
 		for _, g := range left {
 			wk.ignore[g.id] = true
 		}
+		wk.floor += len(left)
 		allInSend, inSend := true, 0
 		for _, g := range left {
 			if leakedInGoSend(g) {
@@ -272,8 +279,8 @@ func (wk *worker) runCase(c *Case) (res CaseResult) {
 		fail(kind, "", "%s", w.anomalies[0])
 	}
 	// ---- oracle 2: batching
-	if msg := w.batchOracle(); msg != "" {
-		fail("property:batch", "", "%s", msg)
+	if msg, key := w.batchOracle(); msg != "" {
+		fail("property:batch", key, "%s", msg)
 	}
 	// ---- oracle 1: response == all-synchronous response
 	if run.status != ref.status {
@@ -298,7 +305,10 @@ func (wk *worker) runCase(c *Case) (res CaseResult) {
 	}
 
 	// ---- correspondence with the Lean model (acceptor)
-	if wk.model != nil {
+	if wk.model != nil && w.execs > 1 {
+		count("model-not-consulted(several executions share one apiRequest)")
+	}
+	if wk.model != nil && w.execs <= 1 {
 		res.CorrRan = true
 		s := w.synthesize()
 		line := "(run fixed " + strings.Join(s.labels, " ") + ")"
@@ -352,6 +362,10 @@ func workerMain(modelPath string, detail bool) {
 		wk.model = m
 		defer m.Close()
 	}
+	hub = startHub()
+	defer hub.srv.Close()
+	time.Sleep(10 * time.Millisecond)
+	wk.floor = runtime.NumGoroutine()
 	in := bufio.NewReaderSize(os.Stdin, 1<<20)
 	out := bufio.NewWriter(os.Stdout)
 	hello, _ := json.Marshal(map[string]any{"hello": true, "f02a_present": wk.f02aPresent})
